@@ -578,7 +578,9 @@ def specStep (root : Node) (cfg : Cfg) (pwd : Str) (first last : Bool) (cs : Lis
     match readDir root dir with
     | .error _ => []
     | .ok ents =>
-      let names := (ents.map (·.1)).filter fun n => globMatch (specMode cfg) (compPat cs) n
+      -- a name that starts with a dot needs dotglob or a pattern that starts with a literal dot
+      let dotOk := fun (n : Str) => n.head? != some cDot || cfg.dotglob || (cs.head?.map (·.c)) == some cDot
+      let names := (ents.map (·.1)).filter fun n => dotOk n && globMatch (specMode cfg) (compPat cs) n
       let outs := names.map join
       if last then outs else outs
   else
@@ -592,6 +594,14 @@ def specLoop (root : Node) (cfg : Cfg) (pwd : Str) : Bool → List (List PC) →
   | _, [], pres => pres
   | first, cs :: rest, pres =>
     specLoop root cfg pwd false rest (pres.flatMap (specStep root cfg pwd first rest.isEmpty cs))
+
+/-- An empty component (`//`) that is not the first or the last one, after a pattern component:
+    bash collapses it (it strips the slash that ends a directory part with pattern characters). -/
+def emptyAfterPattern (cfg : Cfg) : Bool → Bool → List (List PC) → Bool
+  | _, _, [] => false
+  | started, patSeen, cs :: rest =>
+    (cs.isEmpty && patSeen && !rest.isEmpty && started) ||
+      emptyAfterPattern cfg true (patSeen || compIsPattern cfg cs) rest
 
 inductive SpecRes
   | outside
@@ -611,6 +621,7 @@ where
       let chars := css.flatten
       let comps := splitPC chars
       if cfg.globstar ∧ comps.any (fun cs => compPat cs == [cStar, cStar]) then .outside
+      else if emptyAfterPattern cfg false false comps then .outside
       else if cfg.noglob ∨ !comps.any (compIsPattern cfg) then .ok [pcText chars]
       else
         let found := sortStrs (specLoop root cfg pwd true comps [[]])
